@@ -2,7 +2,7 @@
 """Regenerates /verif/MANIFEST.json. Edit the tables here, not the JSON."""
 import json
 
-BUILT = ["C01", "C02", "C03", "C04", "C05", "C06", "C07", "C08", "C09", "C10", "C12", "C13", "C14", "C15", "C16", "C17", "C18", "C19", "C20"]
+BUILT = ["C01", "C02", "C03", "C04", "C05", "C06", "C07", "C08", "C09", "C10", "C11", "C12", "C13", "C14", "C15", "C16", "C17", "C18", "C19", "C20"]
 
 # id -> (category, technique, level text, level note, design ref)
 P = {
